@@ -20,6 +20,7 @@ type c10World struct {
 	shamir  bool
 	keys    [][]byte // currently valid unseal shares (shamir)
 	thr     int
+	recThr  int // threshold of the recovery shares (stored-key seal)
 	secrets map[string]string
 	log     []string
 }
@@ -45,6 +46,20 @@ func (w *c10World) rekey(shares, thr int) ([][]byte, error) {
 		return nil, fmt.Errorf("rekey config: %v", herr)
 	}
 	var res *RekeyResult
+	if !w.shamir {
+		// stored-key (auto-unseal) seal: the legacy rekey of the barrier key is authorised by a threshold of RECOVERY
+		// shares and hands out no new shares
+		for i := 0; i < w.recThr; i++ {
+			res, herr = c.BarrierRekeyUpdate(w.tc.ctx, TestKeyCopy(w.tc.recoveryKeys[i]), rc.Nonce)
+			if herr != nil {
+				return nil, fmt.Errorf("rekey update %d (recovery share): %v", i, herr)
+			}
+		}
+		if res == nil {
+			return nil, fmt.Errorf("rekey with recovery shares did not complete")
+		}
+		return nil, nil
+	}
 	for i := 0; i < w.thr; i++ {
 		res, herr = c.BarrierRekeyUpdate(w.tc.ctx, TestKeyCopy(w.keys[i]), rc.Nonce)
 		if herr != nil {
@@ -93,7 +108,7 @@ func TestVerif_C10_CrashInRotation(t *testing.T) {
 		if err != nil {
 			t.Fatalf("harness: %v", err)
 		}
-		w := &c10World{t: t, tc: tc, shamir: shamir, keys: tc.keys, thr: thr, secrets: map[string]string{}}
+		w := &c10World{t: t, tc: tc, shamir: shamir, keys: tc.keys, thr: thr, recThr: len(tc.recoveryKeys), secrets: map[string]string{}}
 		defer func() { w.tc.shutdown() }()
 		steps := rapid.IntRange(0, 5).Draw(rt, "steps")
 		for i := 0; i < steps; i++ {
@@ -142,9 +157,6 @@ func TestVerif_C10_CrashInRotation(t *testing.T) {
 				r := tc.req(logical.UpdateOperation, "sys/rotate/root", tc.root, nil)
 				w.logf("rotate-root -> %v", r)
 			case "rekey":
-				if !shamir {
-					continue
-				}
 				ns := rapid.IntRange(1, 4).Draw(rt, "newShares")
 				nt := c10Threshold(rt, ns, "newThreshold")
 				keys, err := w.rekey(ns, nt)
@@ -152,8 +164,10 @@ func TestVerif_C10_CrashInRotation(t *testing.T) {
 				if err != nil {
 					t.Fatalf("harness: %v", err)
 				}
-				w.keys, w.thr = keys, nt
-				w.tc.keys = keys
+				if shamir {
+					w.keys, w.thr = keys, nt
+					w.tc.keys = keys
+				}
 			case "seal-unseal":
 				if err := tc.seal(); err != nil {
 					t.Fatalf("harness: seal: %v", err)
@@ -171,9 +185,6 @@ func TestVerif_C10_CrashInRotation(t *testing.T) {
 		}
 		// ---- the operation under test
 		final := rapid.SampledFrom([]string{"rekey", "rekey", "rotate", "rotate-root"}).Draw(rt, "final")
-		if !shamir && final == "rekey" {
-			final = "rotate-root"
-		}
 		oldKeys, oldThr := w.keys, w.thr
 		newKeys := oldKeys
 		mut0 := tc.rec.MutationCount()
@@ -186,7 +197,9 @@ func TestVerif_C10_CrashInRotation(t *testing.T) {
 			if err != nil {
 				t.Fatalf("harness: final rekey: %v", err)
 			}
-			newKeys = keys
+			if shamir {
+				newKeys = keys
+			}
 		case "rotate":
 			if r := tc.req(logical.UpdateOperation, "sys/rotate", tc.root, nil); !r.ok() {
 				t.Fatalf("harness: final rotate: %v", r)
@@ -209,7 +222,7 @@ func TestVerif_C10_CrashInRotation(t *testing.T) {
 			oldOK, oldBad, oldErr := w.tryOpen(tc.rec.ForkAt(mut0+k, tc.opts.transactional), oldKeys)
 			newOK, newBad := false, []string(nil)
 			var newErr error
-			if final == "rekey" {
+			if final == "rekey" && shamir {
 				newOK, newBad, newErr = w.tryOpen(tc.rec.ForkAt(mut0+k, tc.opts.transactional), newKeys)
 			} else {
 				newOK, newBad, newErr = oldOK, oldBad, oldErr
@@ -233,7 +246,7 @@ func TestVerif_C10_CrashInRotation(t *testing.T) {
 			if newOK && len(newBad) > 0 {
 				rec.Violation(rt, "data-lost-after-crash:"+final, detail, "crash after %d/%d writes of %s: unsealed with the new shares but secrets do not read back: %v", k, n, final, newBad)
 			}
-			if k == n && final == "rekey" {
+			if k == n && final == "rekey" && shamir {
 				if !newOK {
 					rec.Violation(rt, "completed-rekey-new-shares-fail", detail, "after the completed rekey the new shares do not unseal: %v", newErr)
 				}
